@@ -18,7 +18,9 @@ def run(ctx):
                     configs=[(1, 1), (2, 1), (2, 2, 12)] if quick else [(1, 1), (2, 1), (1, 2), (3, 1), (2, 2, 40)],
                     trivial_rule=nontrivial)
     ctx.cov["rule"] = ("scripts spawning 1-6 precondition tasks (1-6 precondition words each, duplicates and chains on other tasks' "
-                       "return words, array / variadic / _to / _simple entry points) interleaved with fill-kind and re-emptying "
+                       "return words; every entry point in both calling conventions: qthread_fork_precond, _precond_to, _precond_simple, "
+                       "qthread_fork_copyargs_precond with positive count (varargs) and negative count (array), and qthread_spawn with the "
+                       "precondition array; half of the spawns have only the LAST listed word empty) interleaved with fill-kind and re-emptying "
                        "operations in random order; non-trivial = some task was parked and some task was launched")
     ctx.assumptions += ["return-value fill by the runtime wrapper (retmode 1) is replayed on 1x1 only (its completion is not observable "
                         "from outside); on multi-worker configurations the task body performs the writeEF itself (retmode 2)"]
